@@ -111,6 +111,12 @@ def realise(p, numpy_types=False):
     """Turn the JSON-able description into create() keyword arguments.  numpy_types: numbers are handed over
     as numpy scalars/arrays (what a caller computing its parameters with numpy passes)."""
     kw = dict(p)
+    if numpy_types == "f4":
+        # single-precision limits (e.g. the min/max of a float32 catalog column): exactly representable values, float32 type
+        for k in ("zmin", "zmax"):
+            if isinstance(kw.get(k), float):
+                kw[k] = np.float32(kw[k])
+        numpy_types = False
     if numpy_types:
         for k, v in list(kw.items()):
             if isinstance(v, bool) or v is None or isinstance(v, str):
@@ -346,8 +352,15 @@ class C15(Check):
         rng = np.random.default_rng([case["seed"], 15])
         p = gen_params(rng)
         cosmo = resolve_cosmology(p.get("cosmology"))
+        nt = [True, False, False, "f4"][case_bits(case, "numpy-types") % 4]
+        if nt == "f4":
+            for k in ("zmin", "zmax"):
+                if isinstance(p.get(k), float):
+                    p[k] = float(np.float32(p[k]))  # the value a float32 holds, so that the description stays exact
+            if "zmin" in p and not p["zmin"] < p["zmax"]:
+                nt = False
         try:
-            cfg = Configuration.create(**realise(p, numpy_types=case_bits(case, "numpy-types") % 3 == 0))
+            cfg = Configuration.create(**realise(p, numpy_types=nt))
         except Exception as e:
             bad(f"create:raises-{type(e).__name__}:{p.get('method', 'custom')}:{'custom-cosmo' if str(p.get('cosmology', '')).startswith('custom') else ('unnamed-cosmo' if str(p.get('cosmology', '')).startswith('flcdm') else 'named-cosmo')}",
                 dict(params=p, error=f"{type(e).__name__}: {e}"))
